@@ -39,8 +39,8 @@ fn no_solver() -> Box<dyn Solver<VerifIr>> {
 //   code before the C19 repair (`-> ()`):
 //       pre : no priority stored for impl yet   (the real body asserts it)
 //       post: stored(impl) == p
-// The contract of the current variant is checked against the real IndexMap by
-// k13_insert_contract_* (slow: hashbrown costs CBMC ~25 s per operation).
+// The contract of the current variant is PROVED by Verus unit V15 on the verbatim text of
+// `insert` (an earlier Kani harness against the real IndexMap needed > 25 minutes: dropped).
 static mut PRIO: [Option<usize>; 8] = [None; 8];
 
 fn insert_contract_stub<I: Interner>(
@@ -102,41 +102,6 @@ fn priorities_contract(n: usize, edges: &[(usize, usize)]) {
         assert!(more > less, "the more special impl has the strictly higher priority");
         e += 1;
     }
-}
-
-/// The contract assumed by `insert_contract_stub`, proved against the real
-/// `SpecializationPriorities::insert` / `priority` on a real IndexMap.
-fn insert_contract(k1: u32, k2: u32) {
-    let p1: usize = kani::any();
-    let p2: usize = kani::any();
-    let mut m = SpecializationPriorities::<VerifIr>::new();
-    let c1 = m.insert(ImplId(k1), SpecializationPriority(p1));
-    assert!(c1, "first insertion of a key changes the map");
-    let c2 = m.insert(ImplId(k2), SpecializationPriority(p2));
-    if k1 == k2 {
-        kani::cover!(p2 > p1);
-        kani::cover!(p2 <= p1);
-        assert!(c2 == (p2 > p1), "result says whether the stored priority changed");
-        assert!(m.priority(ImplId(k1)) == SpecializationPriority(if p2 > p1 { p2 } else { p1 }), "the higher priority is kept");
-    } else {
-        assert!(c2);
-        assert!(m.priority(ImplId(k1)) == SpecializationPriority(p1), "other keys untouched");
-        assert!(m.priority(ImplId(k2)) == SpecializationPriority(p2));
-    }
-}
-
-#[kani::proof]
-#[kani::unwind(8)]
-#[kani::stub(std::hash::RandomState::new, fixed_state)]
-fn k13_insert_contract_same_key_thorough() {
-    insert_contract(10, 10);
-}
-
-#[kani::proof]
-#[kani::unwind(8)]
-#[kani::stub(std::hash::RandomState::new, fixed_state)]
-fn k13_insert_contract_other_key_thorough() {
-    insert_contract(10, 11);
 }
 
 include!("/verif/kani/chalk_solve/k13_cases.rs");
